@@ -108,21 +108,31 @@ pub struct Finding { pub sig: String, pub what: String, pub at_seq: u64 }
 
 pub fn check_uploads(t: &Torrent, o: &Outcome, stats: &mut HashMap<&'static str, u64>) -> Option<Finding> {
     // per connection state
-    struct C { outstanding: Vec<(u32, u32, u32)>, last_choke_frame: Option<bool>, hs_ok: bool }
+    struct C { outstanding: Vec<(u32, u32, u32)>, last_choke_frame: Option<bool>, hs_ok: bool, unchoke_decided_since_choke_frame: bool }
     let mut conns: HashMap<(String, u32), C> = HashMap::new();
     let mut snap: Option<Rc<Snapshot>> = None;
     for (k, e) in o.events.iter().enumerate() {
         let key = (e.addr.clone(), e.conn);
         match &e.kind {
-            EvKind::Mgr { after, .. } => snap = Some(after.clone()),
+            EvKind::Mgr { after, .. } => {
+                // an unchoke decision of the manager (am_choked true -> false) for a connection
+                if let Some(prev) = &snap {
+                    for p in &after.peers {
+                        if !p.am_choked && prev.peers.iter().find(|x| x.addr == p.addr).map(|x| x.am_choked).unwrap_or(true) {
+                            for (k2, c) in conns.iter_mut() { if k2.0 == p.addr { c.unchoke_decided_since_choke_frame = true; } }
+                        }
+                    }
+                }
+                snap = Some(after.clone())
+            }
             EvKind::PeerSent { msg: Some(Msg::Request(i, b, l)), .. } => {
-                conns.entry(key).or_insert(C { outstanding: vec![], last_choke_frame: None, hs_ok: false }).outstanding.push((*i, *b, *l));
+                conns.entry(key).or_insert(C { outstanding: vec![], last_choke_frame: None, hs_ok: false, unchoke_decided_since_choke_frame: false }).outstanding.push((*i, *b, *l));
                 *stats.entry("requests_sent_by_peers").or_default() += 1;
             }
             EvKind::Send { msg, .. } => {
-                let c = conns.entry(key).or_insert(C { outstanding: vec![], last_choke_frame: None, hs_ok: false });
+                let c = conns.entry(key).or_insert(C { outstanding: vec![], last_choke_frame: None, hs_ok: false, unchoke_decided_since_choke_frame: false });
                 match msg {
-                    Msg::Choke => c.last_choke_frame = Some(true),
+                    Msg::Choke => { c.last_choke_frame = Some(true); c.unchoke_decided_since_choke_frame = false; }
                     Msg::Unchoke => c.last_choke_frame = Some(false),
                     Msg::Handshake { .. } => c.hs_ok = true,
                     Msg::Piece(i, b, data) => {
@@ -155,6 +165,11 @@ pub fn check_uploads(t: &Torrent, o: &Outcome, stats: &mut HashMap<&'static str,
                         if mgr_choked == Some(true) && wire_choked {
                             let sig = if c.last_choke_frame == Some(true) { "C09:served-after-choke" } else { "C09:served-while-never-unchoked" };
                             return Some(Finding { sig: sig.into(), what: format!("Piece({},{},len={}) sent to {} although the manager has it choked and the last choke-state frame written to it is {}", i, b, l, e.addr, if c.last_choke_frame.is_some() { "Choke" } else { "none" }), at_seq: e.seq });
+                        }
+                        // after a Choke frame nothing may be served until the manager decides to unchoke
+                        // again (only then can a request race with the Unchoke frame that is on its way)
+                        if c.last_choke_frame == Some(true) && !c.unchoke_decided_since_choke_frame {
+                            return Some(Finding { sig: "C09:served-after-choke".into(), what: format!("Piece({},{},len={}) sent to {} although Choke was the last choke-state frame written to it and the manager has not decided to unchoke it since (manager's view: am_choked={:?})", i, b, l, e.addr, mgr_choked), at_seq: e.seq });
                         }
                         if !c.hs_ok {
                             return Some(Finding { sig: "C09:served-before-own-handshake".into(), what: format!("data sent to {} before the client's handshake", e.addr), at_seq: e.seq });
@@ -208,7 +223,7 @@ pub fn gen_scenario(r: &mut Rng, seed: u64) -> Scenario {
         peers.push(PeerSpec { addr: addr(k), id: peer_id(k), entry: if incoming { Entry::Incoming { at_ms: 0 } } else { Entry::Dialled { from_announce: 0 } }, make: Box::new(move |nth| if nth > 1 { None } else { Some(fuzz_leecher(c2.clone())) }), chunk: *r.pick(&[0usize, 0, 5]), pipe: 1 << 20 });
     }
     let desc = json!({"seed": seed, "piece_length": torrent.piece_len, "pieces": n, "virtual_ms": dur, "peers": pdesc});
-    Scenario { cfg: SimCfg { torrent, peers, tracker: vec![], failpoints: if r.chance(1, 3) { Some(r.next()) } else { None }, max_virtual_ms: dur, stop_on_extract: false, linger_ms: 0, disk_on: disk_on_ownership, seed, tracker_fn: None, driver: None }, desc }
+    Scenario { cfg: SimCfg { torrent, peers, tracker: vec![], failpoints: if r.chance(1, 3) { Some(r.next()) } else { None }, max_virtual_ms: dur, stop_on_extract: false, linger_ms: 0, disk_on: disk_on_ownership, seed, pre: None, tracker_fn: None, driver: None }, desc }
 }
 
 pub fn trace_for(o: &Outcome, a: &str, at_seq: u64) -> Vec<String> {
